@@ -198,8 +198,8 @@ static int minimise(Cand &c, int budget) {
 }
 
 // ------------------------------------------------------------------ replay files
-static std::string g_outdir = "/verif/out/replays";
-static std::string write_replay(const char *prop, const std::string &cls, const std::string &key, uint64_t seed, uint64_t run,
+std::string g_outdir = "/verif/out/replays";
+std::string write_replay(const char *prop, const std::string &cls, const std::string &key, uint64_t seed, uint64_t run,
                                 const Plan &plan, const Schedule &sched, const std::string &extra) {
     std::string safe;
     for (char ch : key) safe += (isalnum((unsigned char)ch) || ch == '_' || ch == '.') ? ch : '-';
